@@ -504,6 +504,33 @@ def invalid_case(rng, name):
     return V.Case(name, lines, {"kind": "invalid", "alg": alg, "bits": bits, "mode": mode})
 
 
+def reject_matrix_case(rng, alg, bits, mode):
+    """systematic: one context; every non-block length class (ECB/CBC), every out-of-range offset (stream
+    modes), every relevant NULL pointer, every non-matching mode function; a valid call before and after"""
+    bs = BS[alg]
+    key, iv = gen_key(rng, alg, bits, "rand"), _rbytes(rng, bs)
+    op = rng.choice(["enc", "dec"])
+    lines = ["setkey %s %s %s %d %s" % (alg, op, mode, bits, _hx(key)),
+             "state %s 0 %s" % (_hx(iv), _hx(bytes(bs)))]
+    good = _rbytes(rng, 2 * bs)
+    lines.append("crypt %s %d - %s" % (mode, rng.below(8), _hx(good)))
+    if mode in ("ecb", "cbc"):
+        for ln in (1, bs // 2, bs - 1, bs + 1, bs + bs // 2, 2 * bs - 1, 2 * bs + bs // 2, 4 * bs - 4, 5 * bs + bs // 2):
+            lines.append("crypt %s %d - %s" % (mode, rng.below(8), _hx(_rbytes(rng, ln))))
+    else:
+        for off in (bs, bs + 1, 2 * bs, 255, 65536, 4294967295):
+            lines.append("state %s %d %s" % (_hx(iv), off, _hx(_rbytes(rng, bs))))
+            lines.append("crypt %s %d - %s" % (mode, rng.below(8), _hx(_rbytes(rng, rng.range(1, 2 * bs)))))
+        lines.append("state %s %d %s" % (_hx(iv), rng.below(bs), _hx(_rbytes(rng, bs))))
+    for ch in _RELEVANT_NULLS[mode]:
+        lines.append("crypt %s %d %s %s" % (mode, rng.below(8), ch, _hx(_rbytes(rng, bs))))
+    for other in MODES:
+        if other != mode:
+            lines.append("crypt %s %d - %s" % (other, rng.below(8), _hx(_rbytes(rng, bs))))
+    lines.append("crypt %s %d - %s" % (mode, rng.below(8), _hx(good)))
+    return V.Case("rejmx-%s%d-%s" % (alg, bits, mode), lines, {"kind": "invalid", "alg": alg, "bits": bits, "mode": mode})
+
+
 def _len_choice(rng, bs, big):
     k = rng.below(12)
     if k == 0:
@@ -518,8 +545,8 @@ def _len_choice(rng, bs, big):
 def generate(rng, tier):
     cases = []
     quick = tier == "quick"
-    per_combo = 5 if quick else 40
-    big = 400 if quick else 4096
+    per_combo = 6 if quick else 40
+    big = 700 if quick else 4096
     i = 0
     for alg, bits in ALGS:
         bs = BS[alg]
@@ -531,8 +558,11 @@ def generate(rng, tier):
                     cases.append(roundtrip_case(rng, "rt-%s%d-%s-%s-%d" % (alg, bits, mode, first, i), alg, bits, mode, first, n, off=off))
                     i += 1
             # one maximal message per algorithm and mode (4096 bytes in the thorough tier)
-            nbig = (1024 if alg != "tdes" else 512) if quick else 4096
-            cases.append(roundtrip_case(rng, "big-%s%d-%s" % (alg, bits, mode), alg, bits, mode, "enc", nbig))
+            cases.append(roundtrip_case(rng, "big-%s%d-%s" % (alg, bits, mode), alg, bits, mode, "enc", 4096))
+            if not quick:
+                for j in range(4):
+                    cases.append(roundtrip_case(rng, "big-%s%d-%s-%d" % (alg, bits, mode, j), alg, bits, mode,
+                                                rng.choice(["enc", "dec"]), rng.range(3000, 4096)))
             # counter / register edge values, long enough to cross the wrap several blocks later
             if mode == "ctr":
                 for lo in (2 ** 64 - 1, 2 ** 64 - 2):
@@ -553,6 +583,9 @@ def generate(rng, tier):
         cases.append(roundtrip_case(rng, "weak-des-s-%d" % j, "des", 64, rng.choice(["cbc", "cfb", "ofb", "ctr"]), "enc", 29, key=k))
         cases.append(roundtrip_case(rng, "weak-tdes-%d" % j, "tdes", 192, rng.choice(MODES), "enc", 24,
                                     key=k + bytes.fromhex(rng.choice(DES_WEAK + DES_SEMI_WEAK)) + k))
+    for alg, bits in ALGS:
+        for mode in MODES:
+            cases.append(reject_matrix_case(rng, alg, bits, mode))
     ninv = 120 if quick else 1500
     for j in range(ninv):
         cases.append(invalid_case(rng, "inv-%d" % j))
@@ -707,6 +740,10 @@ def monitor(case, lines):
                 if got != "noctx":
                     return "driver protocol: expected noctx, got %r" % got
                 continue
+            if len(w) != 5:
+                if got != "badline":
+                    return "driver protocol: expected badline, got %r" % got
+                continue
             fn, nulls, src = w[1], w[3], w[4]
             if src.startswith("@"):
                 s, l = (int(x) for x in src[1:].split(":"))
@@ -802,7 +839,7 @@ def tally(dist, case, lines):
 RULE = ("every algorithm/key size (AES-128/192/256, DES, 3DES) x mode (ECB, CBC, CFB, OFB, CTR) x first direction: "
         "seeded random and structured keys (all-zero, all-one, single-bit, the 4 weak + 12 semi-weak DES keys, 3DES with "
         "k1=k2=k3 / k1=k3), IVs/nonces (random, zero, all-one, counters at 2^64-1, 2^64-2, full 128-bit wrap), messages of "
-        "0..4096 bytes (quick tier: up to 1024) cut into 1..8 chunks per direction with the state carried, aligned and "
+        "0..4096 bytes (quick tier: mostly below 700 bytes plus one 4096-byte message per algorithm and mode) cut into 1..8 chunks per direction with the state carried, aligned and "
         "misaligned buffers, a second phase that feeds the implementation's own output back in the opposite direction; "
         "parameter-rejection scripts (bad op/mode/key size, NULL pointers, non-block lengths, offset >= block size, mode "
         "function not matching the context); SP 800-38A / FIPS-197 / DES / TDEA known-answer corpus.  A case is non-trivial "
@@ -821,10 +858,64 @@ TRUSTED_BASE = [
 ASSUMPTIONS = ["input, output and iv buffers are distinct objects (in-place CBC decryption is not part of the documented use)",
                "message lengths are lengths of buffers in memory (far below 2^32 - 16), little-endian host",
                "keys have the length the key-size parameter announces"]
-EVIDENCE_NOTES = []
+EVIDENCE_NOTES = [
+    "PROVED (Coq, unbounded, closed under the global context): for ANY block primitive E with inverse D on bs-byte blocks - "
+    "ecb/cbc_dec_enc (CBC also ends in the same iv), cfb/ofb/ctr_dec_enc for any E, iv, offset, length; cfb/ofb/ctr chunking "
+    "(two calls carrying iv/offset/stream block/nonce = one call) and any partition by induction on the chunk list; CBC "
+    "chunking over whole blocks; the counter as coded is the little-endian 128-bit (64-bit for DES) counter incremented mod "
+    "2^128 (2^64) - ctr_counter_carry; the byte-at-a-time CFB/OFB/CTR loops equal the block-wise definitions of SP 800-38A "
+    "6.3 (s = b) / 6.4 / 6.5 for every E, IV/counter and message length, also when resumed inside a block "
+    "(cfb/ofb/ctr_equals_sp80038a; ECB/CBC loops are 6.1/6.2 verbatim).  FIPS-197 InvCipher(Cipher(b)) = b for every 128/192/256-bit key and block "
+    "(aes_dec_enc: S-box inverse by a 256-sweep; InvMixColumns.MixColumns = id from 256x256 additivity sweeps of the six "
+    "GF(2^8) constant multiplications and 256-sweeps of the 16 matrix-product entries, lifted by lemmas; key expansion yields "
+    "Nr+1 well-formed round keys).  FIPS 46-3 deciphering inverts enciphering for every key schedule and block (des_dec_enc: "
+    "generic Feistel lemma, IP/IP^-1 on 64 symbolic positions, bit/byte round trips); tdes_dec_enc for the library's EDE key "
+    "arrangement in muggle_tdes_set_key (both directions).  At the level of the API functions with their parameter-check "
+    "chains: aes/des/tdes_modes_dec_enc (all five modes, decrypting call reproduces the message and the same chaining state), "
+    "aes/des/tdes_stream_any_partition (one or more calls, all accepted, = one call), ECB/CBC non-block-multiple lengths and "
+    "every other invalid parameter (NULL pointer, mode function not matching the context, offset >= block size; bad op / mode "
+    "/ key size / NULL at set_key) are rejected, a rejected call writes nothing and leaves the chaining state unchanged, and "
+    "valid calls are accepted.",
+    "VALIDATED, not proved: 'produces exactly the output defined by FIPS-197 / FIPS 46-3' for the block primitives.  The "
+    "specification layer IS the standards' definition (tables and algorithms transcribed), checked in Coq by vm_compute against "
+    "FIPS-197 App. A/B/C, SP 800-38A F.1-F.5 (through the transcribed mode loops, both directions), DES and TDEA known "
+    "answers - these vectors are obligations of Properties_C12.v; there is no independent formal FIPS to prove against.",
+    "COVERED BY THE DIFFERENTIAL RUN AND THE MONITOR ONLY: that the C code computes what the model computes - in particular "
+    "the internals of the block primitives that really run (constant-time bitsliced AES and its key expansion in "
+    "crypt/openssl/openssl_aes.c; PC-1/PC-2/SP-table DES in crypt/openssl/openssl_des.c) - and memory safety of the loops "
+    "(ASan, exact-size heap buffers, aligned and misaligned).  crypt/internal/* is dead code in this configuration "
+    "(MUGGLE_CRYPT_OPTIMIZATION=1) and is not exercised.",
+    "NOT COVERED: in-place operation (input == output), for which CBC decryption of the library would use the overwritten "
+    "block as the next iv - the property and the headers do not promise it; big-endian hosts; lengths >= 2^32 - 16.",
+    "Defect confirmed and repaired by fixes/C12-aes-null-offset.patch (committed in the repository as 'fix: reject NULL "
+    "iv_offset / nonce in muggle_aes_cfb128, muggle_aes_ofb128, muggle_aes_ctr'): muggle_aes_cfb128 / muggle_aes_ofb128 dereferenced a "
+    "NULL iv_offset and muggle_aes_ctr a NULL nonce instead of returning MUGGLE_ERR_NULL_PARAM (the DES/TDES counterparts "
+    "check them).  The model has the repaired check chain; on the unrepaired tree the check reports the crash as a VIOLATION "
+    "(corpus/C12/regress-aes-null-offset.case).",
+    "Self-validation (scratch worktrees): caught with a reproducing replay - CFB decrypt storing the output byte in the "
+    "register, CTR carry on nonce[0]==1, CBC decrypt taking the output block as next iv, DES OFB offset not written back, "
+    "3DES decrypt key order, one DES SP-table entry, AES ECB length check relaxed to 8, 3DES CTR increment after use, AES-256 "
+    "key expansion without the extra SubWord, 3DES CFB offset wrap '% 7', DES CBC iv not written back; an error-code change "
+    "is reported as a broken correspondence (no-failing-input-found); quiet on '& 0x0f' -> '% 16', '/ 8' -> '>> 3', a "
+    "rewritten counter carry.",
+]
 MANIFEST = {
-    "level_text": "",
+    "level_text": ("Unbounded Coq theorems over (a) an executable specification layer transcribing FIPS-197 and FIPS 46-3 "
+                   "and (b) a code layer transcribing the mode loops and parameter checks of aes.c / des.c / tdes.c with the "
+                   "block primitive as a parameter: decryption inverts encryption in ECB/CBC/CFB/OFB/CTR for every key, IV, "
+                   "message, offset and length (generic over any invertible block primitive, then AES via S-box/MixColumns "
+                   "sweeps, DES via a Feistel lemma, 3DES via the library's EDE key arrangement); any partition of a stream "
+                   "into calls carrying iv/offset/stream block/nonce equals one call; the counter increment as coded is a "
+                   "little-endian 128/64-bit counter; non-block-multiple lengths and other invalid parameters are rejected "
+                   "with nothing written.  'Equals the standard' = the specification layer is the standard's definition "
+                   "(validated in Coq against FIPS-197 A/B/C, SP 800-38A F.1-F.5, DES/TDEA vectors) + implementation = model "
+                   "by a differential run of the extracted model against the public API compiled from the working tree under "
+                   "ASan, plus an independent plain-Python AES/DES/3DES + SP 800-38A monitor."),
     "design_ref": "DESIGN.md section 6 / C12",
-    "level_note": "",
-    "technique": "",
+    "level_note": ("Trusted: Coq kernel (vm_compute for finite sweeps), extraction (ExtrOcamlBasic), the differential harness "
+                   "and the Python reference.  The internals of the running block primitives (bitsliced AES, SP-table DES) "
+                   "are covered by the differential run and the monitor only, not by proof."),
+    "technique": ("Coq: generic mode-loop theorems by induction, AES inverse by complete finite sweeps lifted by lemmas, DES "
+                  "inverse by a generic Feistel lemma; vm_compute known-answer validation; extracted-model differential run; "
+                  "independent reference monitor"),
 }
